@@ -25,10 +25,12 @@ from vlib import f2b, fs2b, b2f, b2fs
 from props import c01
 
 ID = "C03"
-GEN = ["Dist", "Combinators", "Leaves", "Misc"]
+GEN = ["Dist", "Combinators", "Leaves", "Misc", "Params", "Flows"]
 RULE = ("nested Transformed(StandardNormal, tree) of depth 1-3 over random scalar bijection trees (conditional via AdditiveCondition, "
         "and unconditional), private methods _log_prob/_sample/_sample_and_log_prob and public log_prob, plus merge_transforms(); "
-        "premade flows (coupling, MAF, planar) x invert x conditional: orientation by structural introspection. non-trivial = tree has "
+        "premade flows (coupling, MAF, planar) x invert x conditional: orientation by structural introspection, and — against the GENERATED "
+        "factory bodies (Gen/Flows.lean) — log_prob, sample(key), sample_and_log_prob(key) of real factory-built flows (dims 1-5, 1-4 layers, "
+        "all parameters perturbed) and of hand-stacked triangular-spline stacks. non-trivial = tree has "
         "non-default parameters; distinct = distinct (nesting, method, argument, condition)")
 TRUSTED = c01.TRUSTED + ["Model/ToDist.lean nestTransformed/mergeTransforms (hand models validated here)",
                          "Prelude/Stats.lean normLogpdf spec (validated here against StandardNormal._log_prob)"]
@@ -125,6 +127,12 @@ def corr_factories(c, tier, rng):
                     c.mismatch("factory-orientation", factory=name, invert=invert, got=type(fl.bijection).__name__, inner=type(inner).__name__)
                 c.case(("factory", name, invert, cd), True)
                 c.count("factory")
+    # ---- whole premade flows: the generated `Transformed(base_dist, Invert(Scan(layers)) if invert else Scan(layers))` of every factory
+    #      against log_prob / sample / sample_and_log_prob of real factory-built flows (the model gets the real base sample)
+    from props import flows as pflows
+    # (quick tier: the hand-built triangular-spline stacks are run under C01 only — one property pays their compile time;
+    #  the thorough tier also compares their log_prob / sample / sample_and_log_prob here)
+    pflows.corr_flows(c, tier, rng, parts=("factories",) if tier == "quick" else ("factories", "trispline"), methods=("lp", "s", "slp"))
 
 
 def factories():
@@ -178,6 +186,10 @@ def identities_violations(dist, desc, rng, cond_dim):
 
 def search(hints, tier, rng):
     wit = []
+    from props import flows as pflows
+    wit += pflows.search_flows(tier, rng)
+    if len(wit) >= 5:
+        return wit[:5]
     from props import oracles
     # Invert nested inside Chain / Invert: every method and the sampling path equal the composition of the parts
     wit += oracles.nested_invert_violations(rng, 3)
